@@ -284,10 +284,8 @@ Definition dec_hll (stream : bool) (bs : list N) : option (dstate * list N) :=
 (* HllSketchImplFactory::deserialize: dispatch on the first byte *)
 Definition dec_gen (stream : bool) (bs : list N) : option (dstate * list N) :=
   match bs with
-  | 10 :: _ => dec_hll stream bs
-  | 3 :: _ => dec_set stream bs
-  | 2 :: _ => dec_list stream bs
-  | _ => None
+  | [] => None
+  | b :: _ => if b =? 10 then dec_hll stream bs else if b =? 3 then dec_set stream bs else if b =? 2 then dec_list stream bs else None
   end.
 
 Definition dec_stream (bs : list N) : option (dstate * list N) := dec_gen true bs.
